@@ -289,6 +289,10 @@ async def log_session(loop: vloop.VirtualLoop, ctx, tmpdir: str, idx: int) -> No
             elif kind < 0.2:
                 note = rng.choice((" # evofw3 note", " # gain * 2", " # a < b # c", " # *"))
             same_read = rng.random() < 0.25
+            if rng.random() < 0.15:  # a packet that arrives exactly on a whole second (all-zero microseconds)
+                import math
+
+                await asyncio.sleep(math.ceil(loop.time() + 1e-9) - loop.time())
             line = f"{r} {body}{note}"
             sent.append(line)
             if same_read and k + 1 < n:  # two frames in one read: same ms timestamp
